@@ -262,8 +262,76 @@ def _is(eng, st, a, b):
     return False
 
 
+def approx_rule(chk, F):
+    """approx() = self.round(one unit of the largest non-zero component of decompose()): decision table over the decomposition
+    (the components keep the roles decompose() assigns: days, hours, minutes, seconds, milliseconds, microseconds, else ns)."""
+    from .c10 import Reader
+    from .c20 import rec_hook, recs
+    from .c02 import UNIT_FACTORS
+    from ..sym import St as _St
+    rule = "C14.R4"
+    R = Reader(F)
+    eng, D = R.eng, R.D
+    fn = F.find1(self_ty="Duration", name="approx", trait="")
+    dec = F.find1(self_ty="Duration", name="decompose", trait="")
+    rnd = F.find1(self_ty="Duration", name="round", trait="")
+    order = [(1, "Day"), (2, "Hour"), (3, "Minute"), (4, "Second"), (5, "Millisecond"), (6, "Microsecond")]
+    eng.reset()
+    R.install()
+
+    def h_dec(e, st_, c, a, dest_tid, t):
+        v = e.fresh(dest_tid, ("decompose", tuple(e.term(x) for x in a)))
+        lims = [None, 32768 * 36525 + 1, 23, 59, 59, 999, 999, 999]
+        e.add_cons(st_, [(v.fs[i].lin - lim, "<=") for i, lim in enumerate(lims) if lim is not None and isinstance(v.fs[i], Int)])
+        st_.trace.append(("rec", "decompose", list(a), v))
+        return [(st_, v)]
+    eng.hooks_by_id[dec["id"]] = h_dec
+    eng.hooks_by_id[rnd["id"]] = rec_hook(D, "round")
+    st = _St()
+    eng._pending_cells = []
+    dv = eng.sym(fn["locals"][1]["ty"], "self")
+    for k2, inner in eng._pending_cells:
+        st.store[k2] = inner
+    finals = eng.run(fn, args=[dv], st=st)
+    R.uninstall()
+    seen = set()
+    for s2 in finals:
+        if s2.end != "return":
+            chk.ob(rule, "Duration::approx", "returns", False, detail=s2.end)
+            continue
+        dc, rc = recs(s2, "decompose"), recs(s2, "round")
+        if len(dc) != 1 or len(rc) != 1:
+            chk.ob(rule, "Duration::approx", "one-decomposition-one-round", False, detail={"decompose": len(dc), "round": len(rc)})
+            continue
+        comps = dc[0][1].fs
+        step = rc[0][0][1]
+        T = D.total(step)
+        lo, hi = eng.fm_bounds(s2, T) if T is not None else (None, None)
+        # which unit the path's condition selects: the first component that is provably > 0, all earlier ones provably 0
+        sel = "Nanosecond"
+        for k, nm in order:
+            if D.implies(s2, -comps[k].lin + 1, "<="):
+                sel = nm
+                break
+            if not D.implies(s2, comps[k].lin, "=="):
+                sel = None
+                break
+        ok = sel is not None and lo == hi == UNIT_FACTORS[sel] and st_is(s2.ret, rc[0][1])
+        seen.add(sel)
+        chk.ob(rule, "Duration::approx", "largest-non-zero-component=%s=>round(1 %s)" % (sel, sel), ok, "decision table over decompose()'s outputs",
+               detail=None if ok else {"step_ns": [lo, hi]})
+    chk.ob(rule, "Duration::approx", "all-seven-units-reached", seen == {"Day", "Hour", "Minute", "Second", "Millisecond", "Microsecond", "Nanosecond"}, "coverage",
+           detail=sorted(map(str, seen)))
+
+
+def st_is(a, b):
+    return a is b or (isinstance(a, Struct) and isinstance(b, Struct) and len(a.fs) == len(b.fs) and all(
+        isinstance(x, Int) and isinstance(y, Int) and x.lin.key() == y.lin.key() for x, y in zip(a.fs, b.fs)))
+
+
 def run(chk, F, tier):
     floor_rule(chk, F)
+    approx_rule(chk, F)
     ceil_round_rules(chk, F)
     eng, D = ctx(F)
     chk.extra["engine_stats"] = dict(eng.stats)
